@@ -35,12 +35,18 @@ def setup_repo_path():
 # ----------------------------------------------------------------------------
 
 def cstr(s):
-    """Python str -> Coq string literal (ASCII only, fail closed)."""
+    """Python str -> Coq string literal.  Printable ASCII is written as is; every other character (and the backslash, to
+    keep the encoding injective) is written as the ASCII escape \\u{<hex code point>} - both sides of a comparison go
+    through this function, so equal Coq strings <=> equal Python strings."""
     assert isinstance(s, str), s
+    out = []
     for ch in s:
         o = ord(ch)
-        if not (32 <= o < 127 or o == 10):
-            raise ValueError("non-printable character in string for Coq: %r" % s)
+        if ch == "\\" or not (32 <= o < 127 or o == 10):
+            out.append("\\u{%x}" % o)
+        else:
+            out.append(ch)
+    s = "".join(out)
     if "\n" in s:
         parts = s.split("\n")
         return "(" + " ++ nl ++ ".join('"%s"' % p.replace('"', '""') for p in parts) + ")%string"
